@@ -53,7 +53,7 @@ def observe(arg):
         text, ds, dps, _ = corpus.load_case(arg['case'])
         svals = None
     else:
-        text = 'R := %s;' % render.expr(arg['term'])
+        text = render.statement('R', arg['term'])
         ds, dps, svals = k2.build_inputs(arg['env'])
     out = {'text': text if len(text) < 600 else text[:600] + '...'}
     try:
@@ -106,7 +106,10 @@ def validate(chk, tunits):
 def main(chk):
     rnd = random.Random(chk.seed)
     quick = chk.tier == 'quick'
-    gen_units = variants.mixed_units(rnd, 300 if quick else 3000)
+    from harness import termgen, viral
+    n = 300 if quick else 3000
+    gen_units = (variants.mixed_units(rnd, n) + termgen.random_join_units(rnd, n // 4) + termgen.random_analytic_units(rnd, n // 6)
+                 + termgen.random_validation_units(rnd, n // 6) + viral.nested_units(rnd, n // 6) + termgen.random_exists_units(rnd, n // 10))
     cases = corpus.discover()
     rnd.shuffle(cases)
     cases = cases[:(150 if quick else len(cases))]
